@@ -19,7 +19,7 @@ from anytree.search import CountError
 from . import invariants, struct
 from .ops import exec_op
 from .struct import Result, Violation, apply_op, expect_of, gen_op, stable_hash
-from .world import FAMILY, Watchdog
+from .world import FAMILY, OpGuard, Watchdog
 
 KNOWN_OPEN = set()
 ATTRS = ("foo", "bar")
@@ -299,7 +299,8 @@ def run(cfg, ops=None, rng=None):
             for mname, mod in MODS:
                 args, kwargs = build_call(q, world, cache)
                 try:
-                    val = getattr(mod, fn)(*args, **kwargs)
+                    with OpGuard(3.0, 700):
+                        val = getattr(mod, fn)(*args, **kwargs)
                     if isinstance(val, tuple):
                         got = ("value", tuple(world.index(x) for x in val))
                     elif val is None:
@@ -308,6 +309,8 @@ def run(cfg, ops=None, rng=None):
                         got = ("value", world.index(val))
                     if fn.startswith("findall") and not isinstance(val, tuple):
                         got = ("value", ("not-a-tuple", type(val).__name__))
+                except Watchdog as wd:
+                    raise Violation(prop, "hang", step, "hang:" + fn, "step %d %s: %s.%s does not terminate (%s)" % (step, q, mname, fn, wd))
                 except Exception as exc:  # noqa: BLE001
                     got = ("exc", type(exc).__name__, str(exc))
                 outcomes.append(got)
